@@ -11,6 +11,7 @@ import (
 	"math"
 	"os"
 	"sort"
+	"sync"
 
 	badger "github.com/dgraph-io/badger/v4"
 	"pgregory.net/rapid"
@@ -116,6 +117,16 @@ func Gen(t *rapid.T, c GenCfg) Prog {
 				p.Ops = append(p.Ops, Op{Kind: "txn", Writes: genWrites(t, p.Spec, len(p.Keys))})
 			}
 			continue
+		case "asyncburst": // several transactions committed with CommitWith back to back: multi-request write batches
+			m := rapid.IntRange(2, 10).Draw(t, "asyncburst")
+			for j := 0; j < m; j++ {
+				k := "atxn"
+				if j == m-1 {
+					k = "atxnwait" // the last one waits for all callbacks
+				}
+				p.Ops = append(p.Ops, Op{Kind: k, Writes: genWrites(t, p.Spec, len(p.Keys))})
+			}
+			continue
 		case "compact":
 			op.A = rapid.SampledFrom([]int{0, 0, 1, 2, 3}).Draw(t, "level")
 			op.B = rapid.IntRange(0, 2).Draw(t, "worker")
@@ -215,7 +226,7 @@ func (p Prog) States() (states []State, kinds []string) {
 	seq := 0
 	for _, op := range p.Ops {
 		switch op.Kind {
-		case "txn":
+		case "txn", "atxn", "atxnwait":
 			for _, w := range op.Writes {
 				seq++
 				k := string(p.Keys[w.Key%len(p.Keys)])
@@ -238,7 +249,11 @@ func (p Prog) States() (states []State, kinds []string) {
 			continue
 		}
 		states = append(states, cur.clone())
-		kinds = append(kinds, op.Kind)
+		if op.Kind == "atxn" || op.Kind == "atxnwait" {
+			kinds = append(kinds, "txn")
+		} else {
+			kinds = append(kinds, op.Kind)
+		}
 	}
 	return
 }
@@ -280,9 +295,14 @@ func ReadState(db *badger.DB, keys [][]byte) (State, error) {
 
 // Ack log lines: "I <n>" before issuing the n-th state-changing op, "A <n>" after it returned
 // nil, "P <total>" the number of crash points seen by a dry run, "E <msg>" an unexpected error.
-type ackLog struct{ f *os.File }
+type ackLog struct {
+	mu sync.Mutex
+	f  *os.File
+}
 
 func (a *ackLog) write(format string, args ...any) {
+	a.mu.Lock()
+	defer a.mu.Unlock()
 	fmt.Fprintf(a.f, format+"\n", args...)
 }
 
